@@ -125,3 +125,62 @@ Print Assumptions C16_exact_refuted_F6.
 Theorem C16_witnesses_now : infer witness_F6 = Ok None /\ infer witness_F5 = Ok None.
 Proof. exact F6_rejected_now. Qed.
 Print Assumptions C16_witnesses_now.
+
+(* ---------- context: several objects in one carrier, several inspections in one process ----------
+   [describe_bundle] is the model of PEMFile's loop over the blocks of a file (parsers.go:93-125,
+   written with the accumulator the code appends to); [describe_block] the report of one block
+   (parsePEMBlock).  The loop is the map of the per-block describer: the attributes computed for a
+   block are a function of that block alone. *)
+Theorem C16_bundle_is_map : forall blocks,
+  describe_bundle blocks = map_result describe_block blocks.
+Proof. exact describe_bundle_is_map. Qed.
+Print Assumptions C16_bundle_is_map.
+
+(* the same in the words of the task: wherever every block is described ([g] its report),
+   describe_bundle bs = map describe_block bs *)
+Theorem C16_bundle_is_map_pure : forall (g : pem_block -> info) blocks,
+  (forall b, In b blocks -> describe_block b = Ok (g b)) -> describe_bundle blocks = Ok (map g blocks).
+Proof. exact describe_bundle_pure. Qed.
+Print Assumptions C16_bundle_is_map_pure.
+
+(* context independence: the same block between any other blocks gets the same report, the one it
+   gets alone *)
+Theorem C16_context_independent : forall pre post pre' post' b r r',
+  describe_bundle (pre ++ b :: post) = Ok r -> describe_bundle (pre' ++ b :: post') = Ok r' ->
+  exists i, describe_block b = Ok i /\
+            nth_error r (length pre) = Some i /\ nth_error r' (length pre') = Some i.
+Proof. exact bundle_context_free. Qed.
+Print Assumptions C16_context_independent.
+
+(* exactness inside a bundle: child n of "multiple PEM blocks" shows "Curve (inferred)" only if block n
+   carries explicit parameters of its own and THEY are the curve's in every component -- whatever the
+   other blocks are (a genuine EC PARAMETERS block before a deviating key included) *)
+Theorem C16_bundle_exact : forall blocks rep n kind state p i shown,
+  (2 <= length blocks)%nat -> pem_file blocks = Ok rep ->
+  nth_error blocks n = Some (BEC kind state p) -> nth_error (i_children rep) n = Some i ->
+  In (bs "Curve (inferred)", shown) (i_attrs i) ->
+  state = 2 /\ curve_name p = Ok shown /\
+  exists nm k, infer p = Ok (Some nm) /\ nist nm = Some k /\ exact k p.
+Proof. exact pem_file_exact. Qed.
+Print Assumptions C16_bundle_exact.
+
+(* the hypotheses are met, and the conclusion separates the two blocks, on the bundle "genuine P-256
+   EC PARAMETERS, then an EC PRIVATE KEY whose b has one flipped bit" *)
+Example C16_bundle_exact_nonvacuous :
+  match pem_file [BEC 3 2 (genuine_params nist_p256 false true 1); BEC 2 2 p256_b_flipped] with
+  | Ok (Info _ _ [i1; i2]) => has_inferred i1 && negb (has_inferred i2)
+  | _ => false
+  end = true.
+Proof. exact bundle_example. Qed.
+
+(* the case runner evaluates instances of the model that look the prime up by value instead of by
+   its decimal string (Model/Curve.v, WithFind): they are the model, for every input *)
+Theorem C16_runner_is_the_model :
+  (forall p, params_curve_name_fast p = curve_name p) /\
+  (forall kind pem state p, container_info_fast kind pem state p = container_info kind pem state p) /\
+  (forall c, describe_fast c = describe c) /\
+  (forall cs, describe_history_fast cs = describe_history cs).
+Proof.
+  split; [exact curve_name_fast_eq | split; [exact container_info_fast_eq | split; [exact describe_fast_eq | exact describe_history_fast_eq]]].
+Qed.
+Print Assumptions C16_runner_is_the_model.
